@@ -151,7 +151,7 @@ pub fn props_of(rule: &str) -> Vec<String> {
     panic!("unknown rule {}", rule);
 }
 
-pub const N_SITES: usize = 24;
+pub const N_SITES: usize = 27;
 
 pub fn site_index(s: Site) -> usize {
     s as usize
@@ -181,6 +181,9 @@ pub const SITE_NAMES: [&str; N_SITES] = [
     "BlockOnWake",
     "BlockOnWakeStored",
     "BlockOnSwap",
+    "ArcClone",
+    "ArcDrop",
+    "ArcRead",
     "_",
 ];
 
